@@ -83,6 +83,21 @@ def perturbations(desc, tier):
             sw = list(children)
             sw[i], sw[i + 1] = sw[i + 1], sw[i]
             yield "child-swapped@" + ("last" if i + 1 == len(children) - 1 else "index<last"), (tag, attrs, text, tuple(sw))
+    # a child replaced by a part of another kind with the same name and text (where the library lets one build it)
+    for i, (ct, ca, ctext) in enumerate(children):
+        pos = "last" if i == len(children) - 1 else "index<last"
+        for other in ("oneText", "oneLight", "oneSwitch", "oneNumber", "defText", "defLight", "defSwitch"):
+            if other == ct:
+                continue
+            op = G.PARTS[other]
+            need = {n for n, _ in op.req}
+            have = {n for n, _ in ca}
+            if not need <= have:
+                continue
+            oca = tuple((n, v) for n, v in ca if n in {m for m, _ in op.req + op.opt})
+            ch = list(children)
+            ch[i] = (other, oca, ctext)
+            yield "child-kind-changed@" + pos, (tag, attrs, text, tuple(ch))
     if not children:
         for a, b in COMPAT:
             for x, y in ((a, b), (b, a)):
